@@ -71,6 +71,46 @@ fn render_direct(c: &[String], l: &[bool]) -> Option<String> {
     Some(t)
 }
 
+/// Runs of quoted characters written as ONE double-quoted segment; inside it
+/// `"` `\` `$` and the backquote are written with the backslash that double
+/// quotes require (XCU 2.2.3) - the spelling denotes the same literal characters.
+fn render_dq(c: &[String], l: &[bool]) -> Option<String> {
+    if !c.iter().zip(l).any(|(c, &l)| l && "\"\\$`".contains(c.as_str())) {
+        return None;
+    }
+    let mut t = String::new();
+    let mut open = false;
+    for (c, &l) in c.iter().zip(l) {
+        let ch = c.chars().next()?;
+        if l {
+            if !open {
+                t.push('"');
+                open = true;
+            }
+            if "\"\\$`".contains(ch) {
+                t.push('\\');
+            }
+            t.push(ch);
+        } else {
+            if open {
+                t.push('"');
+                open = false;
+            }
+            if !SAFE.contains(ch) {
+                return None;
+            }
+            t.push(ch);
+        }
+    }
+    if open {
+        t.push('"');
+    }
+    if t.starts_with('#') || t.starts_with('%') || t == "esac" {
+        return None;
+    }
+    Some(t)
+}
+
 pub fn run(args: &[String]) -> i32 {
     let inp = util::open_in(args);
     let mut w = util::open_out(args);
@@ -78,7 +118,7 @@ pub fn run(args: &[String]) -> i32 {
     let mut case_alt = String::new();
     let mut open_patterns = 0u64;
     let (mut patterns, mut cases, mut skipped, mut runs, mut mism) = (0u64, 0u64, 0u64, 0u64, 0u64);
-    let (mut via_var, mut via_direct) = (0u64, 0u64);
+    let (mut via_var, mut via_direct, mut via_dq) = (0u64, 0u64, 0u64);
     for line in inp.lines() {
         let line = line.unwrap();
         if line.trim().is_empty() {
@@ -116,6 +156,10 @@ pub fn run(args: &[String]) -> i32 {
         if let Some(t) = render_direct(&c, &l) {
             renderings.push(("direct", String::new(), t));
             via_direct += 1;
+        }
+        if let Some(t) = render_dq(&c, &l) {
+            renderings.push(("dq", String::new(), t));
+            via_dq += 1;
         }
         for (route, prelude, pt) in renderings {
             let mut script = prelude.clone();
@@ -190,7 +234,7 @@ pub fn run(args: &[String]) -> i32 {
         w,
         "{}",
         json!({"stats": {"patterns": patterns, "cases": cases, "skipped_unspecified": skipped, "open_patterns_case_only": open_patterns, "shell_runs": runs,
-                          "via_var": via_var, "via_direct": via_direct, "mismatches": mism}})
+                          "via_var": via_var, "via_direct": via_direct, "via_dq": via_dq, "mismatches": mism}})
     )
     .unwrap();
     0
